@@ -1,6 +1,342 @@
+/-
+  C19 — property theorems.  Statements of the property and their proofs only; helper lemmas are in
+  WR/C19/Lemmas.lean, LemmasRender.lean, Total.lean.  All theorems are about the definitions of
+  WR/C19/Model.lean and Scope.lean, which are the ones the driver `wrm_c19` executes.
+
+  Notation: `symOf symbols i` = `symbol(symbols[i])`; `concat` = strings.Join(_, ""); digit lists are
+  most-significant-first in the statements (`evalLE … ds.reverse`).
+-/
+import WR.C19.LemmasRender
+import WR.C19.Total
 import WR.C19.Spec
 import WR.Gen.C19Styles
 namespace WR.Props.C19
 open WR.C19
+
+/-! ## numeric: the digits evaluate back to |n| in base L, no leading zero digit -/
+
+theorem numeric_digits (symbols : List NS) (v : Int) (hL : 2 ≤ symbols.length) (hv : v ≠ 0) :
+    ∃ ds : List Nat, numeric symbols v = .ok (concat (ds.map (symOf symbols)))
+      ∧ (∀ d ∈ ds, d < symbols.length) ∧ evalLE symbols.length ds.reverse = v.natAbs
+      ∧ ds ≠ [] ∧ ds.head? ≠ some 0 := by
+  have hn : v.natAbs ≠ 0 := by omega
+  refine ⟨(numDigits symbols.length v.natAbs).reverse, ?_, ?_, ?_, ?_, ?_⟩
+  · have hc := collect_eq symbols (numDigits symbols.length v.natAbs).reverse
+      (fun i hi => numDigits_lt _ hL _ i (List.mem_reverse.mp hi))
+    simp [numeric, hv, hc, Nat.not_lt.mpr hL]
+  · intro d hd; exact numDigits_lt _ hL _ d (List.mem_reverse.mp hd)
+  · simp [numDigits_eval _ hL]
+  · simp [numDigits_ne_nil _ hL _ hn]
+  · have hne := numDigits_ne_nil _ hL _ hn
+    have := numDigits_getLast _ hL _ hne
+    rw [List.head?_reverse]
+    intro h
+    rw [List.getLast?_eq_some_getLast hne] at h
+    exact this (Option.some.inj h)
+
+example : ∃ (symbols : List NS) (v : Int), 2 ≤ symbols.length ∧ v ≠ 0 := ⟨[NS.s "0", NS.s "1"], -5, by decide, by decide⟩
+
+theorem numeric_zero (symbols : List NS) (h : 1 ≤ symbols.length) :
+    numeric symbols 0 = .ok (symOf symbols 0) := by
+  have := symAt_nat symbols 0 (by omega)
+  simp at this
+  simp [numeric, this]
+
+/-- the numeral is THE base-L numeral: any digit list with digits < L, no leading zero, value n, is it -/
+theorem numeric_unique (L : Nat) (hL : 2 ≤ L) (ds : List Nat) (n : Nat)
+    (hlt : ∀ d ∈ ds, d < L) (hlead : ∀ h : ds ≠ [], ds.getLast h ≠ 0) (he : evalLE L ds = n) :
+    ds = numDigits L n := numDigits_unique L hL ds n hlt hlead he
+
+example : evalLE 10 [4, 1] = 14 ∧ numDigits 10 14 = [4, 1] := by decide
+
+/-! ## alphabetic: bijective base-L numeration -/
+
+theorem alphabetic_digits (symbols : List NS) (n : Nat) (hL : 2 ≤ symbols.length) :
+    ∃ ds : List Nat, alphabetic symbols n = .ok (concat (ds.map (symOf symbols)))
+      ∧ (∀ d ∈ ds, d < symbols.length) ∧ evalBij symbols.length ds.reverse = n := by
+  refine ⟨(alphaDigits symbols.length n).reverse, ?_, ?_, ?_⟩
+  · have hc := collect_eq symbols (alphaDigits symbols.length n).reverse
+      (fun i hi => alphaDigits_lt _ (by omega) _ i (List.mem_reverse.mp hi))
+    simp [alphabetic, hc, Nat.not_lt.mpr hL]
+  · intro d hd; exact alphaDigits_lt _ (by omega) _ d (List.mem_reverse.mp hd)
+  · simp [alphaDigits_eval _ (by omega : 1 ≤ symbols.length)]
+
+/-- onto: every string of letters is the numeral of exactly its value (with `alphabetic_digits`:
+    a bijection between the integers ≥ 1 and the non-empty letter strings) -/
+theorem alphabetic_bijective (L : Nat) (hL : 1 ≤ L) (ds : List Nat) (hlt : ∀ d ∈ ds, d < L) :
+    alphaDigits L (evalBij L ds) = ds ∧ evalBij L (alphaDigits L (evalBij L ds)) = evalBij L ds :=
+  ⟨alphaDigits_of_eval L hL ds hlt, alphaDigits_eval L hL _⟩
+
+example : alphaDigits 26 27 = [0, 0] ∧ evalBij 26 [0, 0] = 27 := by decide
+
+/-! ## symbolic, fixed, cyclic -/
+
+/-- symbolic, value n+1 ≥ 1: symbol (n mod L) repeated ⌈(n+1)/L⌉ = n/L + 1 times -/
+theorem symbolic_spec (symbols : List NS) (n : Nat) (hL : 1 ≤ symbols.length) :
+    symbolic symbols ((n : Int) + 1) =
+      .ok (repeatStr (symOf symbols (n % symbols.length)) (n / symbols.length + 1)) := by
+  have hlt : n % symbols.length < symbols.length := Nat.mod_lt _ (by omega)
+  have h := symAt_nat symbols (n % symbols.length) hlt
+  have e : ((n : Int) + 1 - 1) = (n : Int) := by omega
+  have hl : symbols.length ≠ 0 := by omega
+  have hr : ∀ q : Nat, ¬ ((q : Int) + 1 < 0) := by intro q; omega
+  have ht : ∀ q : Nat, ((q : Int) + 1).toNat = q + 1 := by intro q; omega
+  simp only [symbolic, e, ← Int.ofNat_tmod, ← Int.ofNat_tdiv, h, hl, if_false, hr, ht]
+
+theorem fixed_spec_in (symbols : List NS) (first : Int) (k : Nat) (hk : k < symbols.length) :
+    nonRepeating symbols first (first + k) = .ok (symOf symbols k) := by
+  have h := symAt_nat symbols k hk
+  have e : first + (k : Int) - first = (k : Int) := by omega
+  have c : (0 : Int) ≤ (k : Int) ∧ (k : Int) < (symbols.length : Int) := by omega
+  simp only [nonRepeating, e, c, h, and_self, if_true]
+
+theorem fixed_spec_out (symbols : List NS) (first v : Int)
+    (h : v < first ∨ first + symbols.length ≤ v) : nonRepeating symbols first v = .no := by
+  have c : ¬ ((0 : Int) ≤ v - first ∧ v - first < (symbols.length : Int)) := by omega
+  simp only [nonRepeating, c, if_false]
+
+/- Full statement (CSS Counter Styles 3 §3.1.1, cyclic is defined over ALL integers):
+     theorem cyclic_spec (symbols) (v : Int) (hL : 1 ≤ symbols.length) :
+       repeating symbols v = .ok (symOf symbols ((v - 1) % symbols.length).toNat)      -- mathematical mod
+   FALSE on the current code for v ≤ 0 (Go's % truncates): see `cyclic_spec_false`.  Proved for v ≥ 1: -/
+theorem cyclic_spec_partial (symbols : List NS) (n : Nat) (hL : 1 ≤ symbols.length) :
+    repeating symbols ((n : Int) + 1) = .ok (symOf symbols (((n : Int) + 1 - 1) % symbols.length).toNat) := by
+  have hlt : n % symbols.length < symbols.length := Nat.mod_lt _ (by omega)
+  have h := symAt_nat symbols (n % symbols.length) hlt
+  have e : ((n : Int) + 1 - 1) = (n : Int) := by omega
+  have hl : symbols.length ≠ 0 := by omega
+  have e2 : ((n : Int) % (symbols.length : Int)).toNat = n % symbols.length := by
+    have : ((n : Int) % (symbols.length : Int)) = ((n % symbols.length : Nat) : Int) := rfl
+    rw [this]; exact Int.toNat_natCast _
+  simp only [repeating, e, ← Int.ofNat_tmod, h, hl, if_false, e2]
+
+/-- negation witness (replayed against the real code: index out of range [-1]) -/
+theorem cyclic_spec_false :
+    repeating [NS.s "a", NS.s "b", NS.s "c"] 0 = .panic "index out of range"
+    ∧ symOf [NS.s "a", NS.s "b", NS.s "c"] (((0 : Int) - 1) % 3).toNat = "c" := by decide
+
+/-- exactly when the cyclic algorithm panics: a non-positive value whose predecessor is not a multiple of L -/
+theorem cyclic_panics_iff (symbols : List NS) (v : Int) (hL : 1 ≤ symbols.length) :
+    (∃ w, repeating symbols v = .panic w) ↔ (v - 1).tmod symbols.length < 0 := by
+  have hl : symbols.length ≠ 0 := by omega
+  simp only [repeating, hl, if_false]
+  constructor
+  · intro ⟨w, hw⟩
+    by_cases hneg : (v - 1).tmod (symbols.length : Int) < 0
+    · exact hneg
+    · exfalso
+      have hlt : (v - 1).tmod (symbols.length : Int) < symbols.length :=
+        Int.tmod_lt_of_pos _ (by omega)
+      have : symAt symbols ((v - 1).tmod symbols.length) = some (symOf symbols ((v - 1).tmod symbols.length).toNat) := by
+        have := symAt_nat symbols ((v - 1).tmod symbols.length).toNat (by omega)
+        rwa [Int.toNat_of_nonneg (by omega)] at this
+      rw [this] at hw; simp at hw
+  · intro hneg
+    exact ⟨"index out of range", by simp [symAt, hneg]⟩
+
+/-! ## additive: Σ weightᵢ·countᵢ = n with the greedy counts, whenever a representation is returned -/
+
+theorem additive_sum (syms : List (Int × NS)) (v : Int) (s : String) (hv : v ≠ 0)
+    (h : additive syms v = .ok s) :
+    ∃ cs : List Nat, cs ≠ [] ∧ cs.length ≤ syms.length ∧ s = concat (renderCounts syms cs)
+      ∧ weightedSum syms cs = v ∧ Greedy syms v cs := by
+  simp only [additive, hv, if_false] at h
+  split at h
+  · simp at h
+  · obtain ⟨cs, h1, h2, h3, h4, h5⟩ := additiveLoop_ok syms v [] s h
+    exact ⟨cs, h1, h2, by simpa using h3, h4, h5⟩
+
+example : additive [(10, NS.s "x"), (5, NS.s "v"), (1, NS.s "i")] 17 = .ok "xvii" := by decide
+
+/-- F19-1 (replayed against the real code: integer divide by zero): a zero weight reached with a
+    non-zero remainder panics -/
+theorem additive_zero_weight_panics :
+    additive [(2, NS.s "b"), (0, NS.s "z")] 1 = .panic "integer divide by zero" := by decide
+
+/-! ## range / fallback, pad, negative (generate-a-counter steps 2, 4, 5) -/
+
+/-- step 2: a value outside the (effective) range of a resolved style is handed, unchanged, to the
+    fallback style -/
+theorem render_range_fallback (c : Table) (v : Int) (d : Desc) (system : String) (number : Int)
+    (hext : d.sys3 = ("", system, number)) (hout : inRanges (effRanges d system) v = false) :
+    stepValue c v (some d) none = .fallback d.fallbackName [] v := by
+  simp [stepValue, stepResolved, hext, loopFuel, rvLoop, hout]
+
+/-- … and an undefined fallback / the end of every chain is decimal -/
+theorem render_unknown_is_decimal (c : Table) (v : Int) (prev : Option (List String))
+    (h : (c.get? "decimal").isSome = true) : stepValue c v none prev = .decimal v := by
+  simp [stepValue, h]
+
+/-- step 4 (as implemented: lengths in UTF-8 bytes): with a one-byte pad symbol the representation,
+    sign included, has exactly max(pad length, natural length) bytes -/
+theorem pad_length (d : Desc) (neg : Bool) (np ns initial : String) (h1 : (symbol d.padSym).utf8ByteSize = 1) :
+    (finish d neg np ns initial).utf8ByteSize =
+      max d.padLen.toNat (initial.utf8ByteSize + (if neg then np.utf8ByteSize + ns.utf8ByteSize else 0)) :=
+  finish_size d neg np ns initial h1
+
+example : ∃ d : Desc, (symbol d.padSym).utf8ByteSize = 1 := ⟨{ Desc.zero with padSym := NS.s "0" }, by decide⟩
+
+/-- step 5: the negative sign wraps the padded representation of the absolute value -/
+theorem negative_wrap (c : Table) (v : Int) (d : Desc) (system : String) (number : Int) (s : String)
+    (hext : d.sys3 = ("", system, number)) (hin : inRanges (effRanges d system) v = true)
+    (hneg : v < 0) (huse : usesNegative system = true)
+    (hs : systemStep d system number (v.natAbs : Int) = .initial s) :
+    ∃ padding, stepValue c v (some d) none =
+      .ret (.ok ((if (d.neg1 == NS.zero && d.neg2 == NS.zero) then "-" else symbol d.neg1)
+        ++ (padding ++ s) ++ (if (d.neg1 == NS.zero && d.neg2 == NS.zero) then "" else symbol d.neg2))) := by
+  obtain ⟨padding, hp⟩ := finish_negative d
+    (if (d.neg1 == NS.zero && d.neg2 == NS.zero) then "-" else symbol d.neg1)
+    (if (d.neg1 == NS.zero && d.neg2 == NS.zero) then "" else symbol d.neg2) s
+  refine ⟨padding, ?_⟩
+  simpa [stepValue, stepResolved, hext, loopFuel, rvLoop, hin, hneg, huse, hs] using hp
+
+/-! ## termination of extends / fallback resolution -/
+
+/- Full statement: for every table, every integer and every style name, RenderValue returns.
+   FALSE on the current code outside the 32-bit range (`renderValue_overflow_diverges`) and when the
+   table's "decimal" is not the plain numeric style (excluded by css/validation ParseCounterStyleName:
+   author rules cannot redefine decimal).  Proved with these two hypotheses; cyclic extends / fallback
+   graphs of any shape are covered. -/
+theorem renderValue_total_partial (c : Table) (h : DecOK c) (v : Int) (hv : Bd v) (name : String) :
+    RenderValue c v name ≠ .diverge := by
+  have hfuel : unvisited c (Option.getD none []) + 3 ≤ renderFuel c := by
+    have := unvisited_le c []; simp only [renderFuel, Option.getD_none]; omega
+  unfold RenderValue
+  cases hr : resolveCounter c name none with
+  | diverge =>
+    rcases resolveCounter_ne_diverge c h name none with h1 | h1 <;> (rw [hr] at h1; cases h1)
+  | nil => simp only [ofRC]; exact renderValue_ne_diverge c h (renderFuel c) v none none hv hfuel
+  | found d p => simp only [ofRC]; exact renderValue_ne_diverge c h (renderFuel c) v (some d) none hv hfuel
+
+/-- the same for markers -/
+theorem renderMarker_total_partial (c : Table) (h : DecOK c) (v : Int) (hv : Bd v) (id : CSID)
+    (hid : id.type = "") : RenderMarker c id v ≠ .diverge := by
+  have hfuel : unvisited c [] + 3 ≤ renderFuel c := by
+    have := unvisited_le c []; simp only [renderFuel]; omega
+  have key : ∀ d, markerOf c v d ≠ .diverge := by
+    intro d
+    have := renderValue_ne_diverge c h (renderFuel c) v (some d) none hv (by simpa using hfuel)
+    unfold markerOf
+    cases hx : renderValue c (renderFuel c) v (some d) none with
+    | ok s => simp
+    | panic w => simp
+    | diverge => exact absurd hx this
+  have hres : ∀ n, resolveCounterStyle c ⟨"", n, []⟩ none = resolveCounter c n none := by
+    intro n; simp [resolveCounterStyle]
+  have hres2 : resolveCounterStyle c id none = resolveCounter c id.name none := by
+    simp [resolveCounterStyle, hid]
+  unfold RenderMarker
+  rw [hres2]
+  rcases resolveCounter_ne_diverge c h id.name none with h1 | h1
+  · rw [h1]
+    simp only
+    split
+    · rename_i hdec
+      rw [hres]
+      cases hr : resolveCounter c "decimal" none with
+      | diverge =>
+        rcases resolveCounter_ne_diverge c h "decimal" none with h2 | h2
+        · rw [hr] at h2; cases h2
+        · rw [hr] at h2; cases h2
+      | nil =>
+        have := resolve_decimal_nil c hr
+        rw [this] at hdec; simp at hdec
+      | found d p => exact key d
+    · simp
+  · cases hr : resolveCounter c id.name none with
+    | diverge => rw [hr] at h1; cases h1
+    | nil => rw [hr] at h1; cases h1
+    | found d p => exact key d
+
+/-- the predefined table satisfies the hypothesis of the two theorems above -/
+theorem predefined_decimal_ok : DecOK WR.Gen.C19Styles.table := by
+  intro d hd
+  have key : ((WR.Gen.C19Styles.table.get? "decimal").all fun d =>
+      decide (d.sys.ext = "" ∧ d.sys.system = "numeric" ∧ 2 ≤ d.symbols.length ∧ (d.rangeAuto || d.rangeIsNone) = true)) = true := by
+    decide
+  rw [hd] at key
+  simpa using key
+
+example : Bd (-2147483647) ∧ Bd 2147483647 := by unfold Bd maxInt32; omega
+
+/-- negation witness for the unrestricted statement (replayed against the real code: fatal stack
+    overflow): 2^31 is outside decimal's own auto range, and decimal falls back to decimal -/
+theorem renderValue_overflow_diverges : RenderValue decimalOnly 2147483648 "decimal" = .diverge := by decide
+
+/-! ## facts about the predefined styles (regenerated from html5_ua.css as parsed by the real code) -/
+
+/-- every predefined additive style has strictly decreasing non-negative weights, and a zero weight
+    only together with the weight 1 (so the zero tuple is never reached with a remainder);
+    every predefined cyclic style has a single symbol (so (v-1) % L = 0 for every v) -/
+theorem predefined_no_panic_shapes :
+    WR.Gen.C19Styles.table.all (fun e =>
+      (e.2.additive.map (·.1)).Pairwise (· > ·) && e.2.additive.all (fun p => p.1 ≥ 0)
+      && (!(e.2.additive.any (fun p => p.1 = 0)) || e.2.additive.any (fun p => p.1 = 1))
+      && (e.2.sys.system != "cyclic" || e.2.symbols.length == 1)) = true := by decide
+
+/-! ## counter scopes: what counter-reset / counter-set / counter-increment do to the instance stacks -/
+
+/-- counter-reset on a name not created among the current siblings opens a NEW instance, listed
+    after (inside) the existing ones: `counters()` lists outermost first -/
+theorem reset_nests (vals : Values) (sib : List String) (name : String) (v : Int)
+    (h : sib.contains name = false) :
+    resetOne vals sib name v = some (vals.put name (vals name ++ [v]), name :: sib) := by
+  have h' : name ∉ sib := by simpa using h
+  simp [resetOne, h']
+
+/-- counter-reset on a name already created by the element or an earlier sibling REPLACES that instance -/
+theorem reset_replaces_sibling (vals : Values) (sib : List String) (name : String) (v : Int)
+    (h : sib.contains name = true) (hne : vals name ≠ []) :
+    resetOne vals sib name v = some (vals.put name ((vals name).dropLast ++ [v]), sib) := by
+  have h' : name ∈ sib := by simpa using h
+  simp [resetOne, h', hne]
+
+/-- counter-set / counter-increment act on the innermost instance only … -/
+theorem touch_innermost (vals : Values) (sib : List String) (name : String) (f : Int → Int)
+    (outer : List Int) (x : Int) (h : vals name = outer ++ [x]) :
+    touchOne vals sib name f = (vals.put name (outer ++ [f x]), sib) := by
+  simp [touchOne, h]
+
+/-- … and create one (from 0, scoped like a reset) if there is none -/
+theorem touch_creates (vals : Values) (sib : List String) (name : String) (f : Int → Int)
+    (h : vals name = []) (hs : sib.contains name = false) :
+    touchOne vals sib name f = (vals.put name [f 0], name :: sib) := by
+  have h' : name ∉ sib := by simpa using hs
+  simp [touchOne, h, h']
+
+/-- list items increment `list-item` implicitly (no counter-increment declared) -/
+theorem list_item_implicit (o : Ops) (h : o.incr = none) (hl : o.listItem = true) :
+    o.increments = [("list-item", 1)] := by
+  simp [Ops.increments, h, hl]
+
+/-- counters() lists all instances outermost first, counter() is the innermost -/
+theorem counters_outermost_first (k : ObsKind) (vals : Values) (name : String) (outer : List Int) (x : Int)
+    (h : vals name = outer ++ [x]) :
+    (Obs.mk k vals).counters name = outer ++ [x] ∧ (Obs.mk k vals).counter name = x := by
+  constructor
+  · simp only [Obs.counters, h]
+    cases outer <;> simp
+  · simp [Obs.counter, h]
+
+/-- an element with display:none (and its subtree) leaves every counter untouched -/
+theorem display_none_inert (ops : Ops) (b a : Option Ops) (ch : List Elem) (st : State) :
+    walk (.node true ops b a ch) st = some (st, []) := by
+  simp [walk]
+
+/- scope_spec — full statement, NOT proved (searched only: L2 correspondence + judge):
+     theorem scope_spec (root : Elem) : observe root = some (specObserveOrd true root)
+   i.e. the stack machine of elementToBox/UpdateCounters computes, for every element tree and every
+   assignment, the counters sets of CSS Lists 3 §4.4 (inherit from parent / preceding sibling /
+   preceding element, instantiate replacing a sibling's instance) with counter-set applied before
+   counter-increment.  With the order of the standard (`specObserveOrd false`) it is FALSE:
+   `scope_order_false`. -/
+
+/-- negation witness for the order of CSS Lists 3 (increment, then set); replayed against the real
+    code: `<p style="counter-increment: c 2; counter-set: c 10">` shows 12, the standard says 10 -/
+theorem scope_order_false :
+    let p : Elem := .node false ⟨[], [("c", 10)], some [("c", 2)], false⟩ (some ⟨[], [], some [], false⟩) none []
+    (observe p).map (fun os => os.map (·.counter "c")) = some [12]
+    ∧ (specObserveOrd false p).map (·.counter "c") = [10]
+    ∧ (specObserveOrd true p).map (·.counter "c") = [12] := by decide
 
 end WR.Props.C19
